@@ -236,6 +236,13 @@ def A3(ctx: Ctx, mode: str = 'exact', rid: str = 'A3') -> RuleResult:
     return r
 
 
+def A3u(ctx: Ctx) -> RuleResult:
+    r = RuleResult('A3u', 'both sides of = and != are unified to a common type set and stored back; occurrences of a bound variable are checked against the element type of the domain')
+    _unification(ctx, r)
+    _quantifier_var(ctx, r)
+    return r
+
+
 def A3p(ctx): return A3(ctx, 'present', 'A3p')
 def A3n(ctx): return A3(ctx, 'notnarrow', 'A3n')
 
@@ -556,4 +563,4 @@ def A6(ctx: Ctx) -> RuleResult:
     return r
 
 
-RULES = {'A1': A1, 'A2': A2, 'A3': A3, 'A3p': A3p, 'A3n': A3n, 'A4': A4, 'A5': A5, 'A6': A6}
+RULES = {'A1': A1, 'A2': A2, 'A3': A3, 'A3u': A3u, 'A3p': A3p, 'A3n': A3n, 'A4': A4, 'A5': A5, 'A6': A6}
